@@ -7,6 +7,8 @@ import (
 	"encoding/hex"
 	"fmt"
 	"path/filepath"
+	"runtime/debug"
+	"strings"
 	"time"
 
 	"github.com/massnetorg/mass-core/blockchain"
@@ -85,6 +87,22 @@ type World struct {
 	RelayedKind   []string
 	// HandlerErrs collects errors returned by the handler entry points (handle() only logs them).
 	HandlerErrs []string
+	// Panics lists panics caught while the follower entry points ran (Deliver)
+	Panics []string
+}
+
+func shortStack() string {
+	l := strings.Split(string(debug.Stack()), "\n")
+	var keep []string
+	for _, x := range l {
+		if strings.Contains(x, "mass-wallet/masswallet") && !strings.Contains(x, "verif_export") {
+			keep = append(keep, strings.TrimSpace(x))
+		}
+		if len(keep) >= 6 {
+			break
+		}
+	}
+	return strings.Join(keep, " | ")
 }
 
 const (
@@ -248,13 +266,27 @@ func (w *World) Deliver() error {
 		return fmt.Errorf("nothing queued")
 	}
 	var err error
-	if nt.Block != nil {
-		w.refDeliverBlock(nt.Block)
-		err = w.I.W.VerifProcessBlock(nt.Block)
-	} else {
-		w.refDeliverTx(nt.Tx)
-		err = w.I.W.VerifProcessTx(nt.Tx)
-	}
+	func() {
+		// handle() runs under Recover(): a panic while processing a notification ends the
+		// follower goroutine silently. Here it is caught and recorded (C19: "every block and
+		// unconfirmed transaction the node can deliver is processed without a panic").
+		defer func() {
+			if e := recover(); e != nil {
+				if fmt.Sprintf("%T", e) == "dbseam.Crash" {
+					panic(e) // a planned stop of the process (C06), not a defect
+				}
+				w.Panics = append(w.Panics, fmt.Sprintf("follower panicked while processing a notification: %v | %s", e, shortStack()))
+				err = fmt.Errorf("PANIC: %v", e)
+			}
+		}()
+		if nt.Block != nil {
+			w.refDeliverBlock(nt.Block)
+			err = w.I.W.VerifProcessBlock(nt.Block)
+		} else {
+			w.refDeliverTx(nt.Tx)
+			err = w.I.W.VerifProcessTx(nt.Tx)
+		}
+	}()
 	if err != nil {
 		w.HandlerErrs = append(w.HandlerErrs, err.Error())
 	}
